@@ -163,6 +163,38 @@ func (ld *Loaded) protectScan(fd *FieldDecl) *FuncResult {
 			case a.store && mode == "r":
 				note(a, "write while holding only the read lock of "+mu)
 			}
+			// a map read from the guarded field is the shared object itself: using it after the
+			// lock is released is an unprotected access - unless the field was given a fresh map in
+			// the same critical section (the old map was swapped out and is now private)
+			if ldv, isLoad := a.in.(*ssa.UnOp); isLoad && !a.store {
+				if _, isMap := ldv.Type().Underlying().(*types.Map); isMap && ldv.Referrers() != nil {
+					swapped := false
+					for _, b := range a.fn.Blocks {
+						for _, in := range b.Instrs {
+							st, ok := in.(*ssa.Store)
+							if !ok {
+								continue
+							}
+							fa2, ok := st.Addr.(*ssa.FieldAddr)
+							if !ok || fa2.Field != a.fa.Field || !sameBase(fa2.X, a.fa.X) {
+								continue
+							}
+							if _, fresh := st.Val.(*ssa.MakeMap); fresh && dominatesInstr(ldv, st) && lockStateAt(a.fn, st, mu, a.fa.X) == 2 {
+								swapped = true
+							}
+						}
+					}
+					for _, r := range *ldv.Referrers() {
+						switch r.(type) {
+						case *ssa.DebugRef, *ssa.Store:
+							continue
+						}
+						if lockStateAt(a.fn, r, mu, a.fa.X) == 0 && !swapped {
+							note(a, "map read from the guarded field is used after the lock is released: "+r.String())
+						}
+					}
+				}
+			}
 		}
 	case "published_by":
 		// args: <publishing call name> <done channel method>
